@@ -123,6 +123,9 @@ pub const OUTCOME_NAMES: [&str; 3] = ["ok", "err", "panic"];
 /// Runs a fallible subject call under `catch_unwind`.
 #[inline]
 pub fn guard<T, E: std::fmt::Debug>(f: impl FnOnce() -> Result<T, E>) -> Out<T> {
+    // every guarded library call is progress of the case it belongs to: the hang criterion applies
+    // to ONE call (a check that makes a thousand calls on a 700 kB input is not a hanging call)
+    heartbeat();
     match catch_unwind(AssertUnwindSafe(f)) {
         Ok(Ok(v)) => Out::Ok(v),
         Ok(Err(e)) => Out::Err(format!("{:?}", e)),
@@ -133,6 +136,7 @@ pub fn guard<T, E: std::fmt::Debug>(f: impl FnOnce() -> Result<T, E>) -> Out<T> 
 /// Runs an infallible subject call under `catch_unwind`.
 #[inline]
 pub fn guard_total<T>(f: impl FnOnce() -> T) -> Result<T, String> {
+    heartbeat();
     match catch_unwind(AssertUnwindSafe(f)) {
         Ok(v) => Ok(v),
         Err(_) => Err(LAST_PANIC.with(|p| p.borrow().clone())),
@@ -404,7 +408,8 @@ static ABORT: AtomicBool = AtomicBool::new(false);
 // every call that it is making progress: the hang criterion applies to ONE library call, not to
 // the checker's own loop around many of them.
 const MAX_WORKERS: usize = 256;
-static HEARTBEATS: [AtomicU64; MAX_WORKERS] = [const { AtomicU64::new(0) }; MAX_WORKERS];
+const HB_STRIDE: usize = 16; // one counter per 128 bytes: workers do not share a cache line
+static HEARTBEATS: [AtomicU64; MAX_WORKERS * HB_STRIDE] = [const { AtomicU64::new(0) }; MAX_WORKERS * HB_STRIDE];
 thread_local! {
     static WORKER_ID: std::cell::Cell<usize> = const { std::cell::Cell::new(usize::MAX) };
 }
@@ -412,7 +417,7 @@ thread_local! {
 pub fn heartbeat() {
     let w = WORKER_ID.with(|c| c.get());
     if w < MAX_WORKERS {
-        HEARTBEATS[w].fetch_add(1, Ordering::Relaxed);
+        HEARTBEATS[w * HB_STRIDE].fetch_add(1, Ordering::Relaxed);
     }
 }
 /// after this many violating cases the sweeps stop early (the evidence then says `exhaustive: false`)
@@ -471,7 +476,7 @@ pub fn run_space(
                 for w in 0..nthreads {
                     let c = current[w].load(Ordering::Relaxed);
                     // the inner input counter and the check's own heartbeat (both mean progress)
-                    let t = ticks[w].load(Ordering::Relaxed).wrapping_add(HEARTBEATS[w % MAX_WORKERS].load(Ordering::Relaxed) << 24);
+                    let t = ticks[w].load(Ordering::Relaxed).wrapping_add(HEARTBEATS[(w % MAX_WORKERS) * HB_STRIDE].load(Ordering::Relaxed) << 24);
                     let tid = tids[w].load(Ordering::Relaxed);
                     if c == 0 || c != last[w].0 || t != last[w].1 {
                         last[w] = (c, t, Instant::now(), thread_cpu_ticks(tid));
